@@ -800,3 +800,333 @@ def rt_alias(req):
 
 
 RT['alias'] = rt_alias
+
+
+# ----------------------------------------------------------------------------- C13: wrappers
+def _params_src(ps):
+    return core.def_source(ps, name='X', body='pass').split('(', 1)[1].rsplit('):', 1)[0]
+
+
+def rt_wrap(req):
+    """C13: wrappers.decorator / wrapper_decorator / Combination are call-transparent; the reported signature
+    (sigtools and inspect) accepts only calls that execute; binding removes the first parameter; wrappers() order"""
+    from . import progs, oracles as O
+    _, kind, own_list, fps, placement = req
+    lines = ['import functools', 'from sigtools import wrappers, specifiers, modifiers', 'LOG = []']
+    depth = len(own_list)
+    # decorated function: records its arguments
+    fparams = list(fps)
+    if placement in ('method',):
+        fparams = [core.P('self', 'pk')] + fparams
+    ret = 'return ("f", %s)' % ', '.join(
+        ('%s' % p[0]) if p[1] not in ('vp', 'vk') else ('tuple(%s)' % p[0] if p[1] == 'vp' else 'tuple(sorted(%s.items()))' % p[0])
+        for p in fparams if p[0] != 'self')
+    if ret.endswith(', )'):
+        ret = 'return ("f",)'
+    for i, own in enumerate(own_list):
+        ownsrc = ', '.join('%s=%d' % (n, 50 + i) for n in own)
+        sig = 'func, *args' + (', ' + ownsrc if own else '') + ', **kwargs'
+        body = 'return ("w%d", %s func(*args, **kwargs))' % (i, ''.join('%s, ' % n for n in own))
+        deco = {'decorator': '@wrappers.decorator', 'wrapper_decorator': '@wrappers.wrapper_decorator'}[kind]
+        lines += [deco, 'def deco%d(%s):' % (i, sig), '    ' + body]
+        lines += ['def hand%d(func, *args%s, **kwargs):' % (i, (', ' + ownsrc) if own else ''), '    ' + body]
+    fdef = core.def_source(fparams, name='f', body=ret).rstrip('\n').split('\n')
+    decos = ['@deco%d' % i for i in range(depth)]
+    if placement == 'function':
+        lines += decos + fdef
+        lines += core.def_source(fparams, name='plain', body=ret).rstrip('\n').split('\n')
+        lines += ['target = f']
+        hand = 'plain'
+        for i in reversed(range(depth)):
+            hand = 'functools.partial(hand%d, %s)' % (i, hand)
+        lines += ['hand = ' + hand]
+    else:
+        lines += ['class C(object):']
+        if placement == 'staticmethod':
+            lines += ['    @staticmethod']
+        lines += ['    ' + l for l in decos + fdef]
+        lines += ['    ' + l for l in core.def_source(fparams, name='plain', body=ret).rstrip('\n').split('\n')]
+        lines += ['inst = C()', 'target = inst.f']
+        hand = ('inst.plain' if placement == 'method' else 'C.__dict__["plain"]')
+        for i in reversed(range(depth)):
+            hand = 'functools.partial(hand%d, %s)' % (i, hand)
+        lines += ['hand = ' + hand]
+    src = '\n'.join(lines) + '\n'
+    problems = []
+    try:
+        mod, fname = progs.load_module(src)
+    except Exception as e:  # noqa
+        return ('ok', ('harness-wrap-source: %s %s\n%s' % (type(e).__name__, e, src),), 'error')
+    try:
+        with warnings.catch_warnings():
+            warnings.simplefilter('ignore')
+            sig = sigtools.signature(mod.target)
+            isig = inspect.signature(mod.target)
+        if str(sig) != str(isig):
+            problems.append('inspect-differs: sigtools %s, inspect %s\n%s' % (sig, isig, src))
+        R = [(p.name, core.KIND_NAME[p.kind], None if p.default is p.empty else 1) for p in sig.parameters.values()]
+        names = [p[0] for p in fps] + [n for own in own_list for n in own] + ['zz']
+        inputs = [[(p[0], p[1], p[2]) for p in fps]] + [[(n, 'ko', 1) for n in own] for own in own_list]
+        npos = sum(1 for p in fps if p[1] in ('po', 'pk'))
+        ran = 0
+        for n in range(npos + 2):
+            for r in range(min(3, len(names)) + 1):
+                for K in itertools.combinations(names, r):
+                    a = tuple(100 + i for i in range(n))
+                    k = {x: 200 + j for j, x in enumerate(K)}
+
+                    def run(fn):
+                        try:
+                            return ('ok', fn(*a, **k))
+                        except TypeError:
+                            return ('typeerror',)
+                    got, want = run(mod.target), run(mod.hand)
+                    ran += 1
+                    if got != want:
+                        problems.append('not-transparent: called with %s %s the decorated callable gives %s, the hand-written composition %s\n%s' % (
+                            a, k, got, want, src))
+                        break
+                    if O.non_colliding(R, inputs, K) and O.acc(R, n, K) and got == ('typeerror',):
+                        problems.append('signature-unsound: %s accepts (%d,%s) but the call raises TypeError\n%s' % (sig, n, K, src))
+                        break
+        ws = list(wrappers.wrappers(mod.target))
+        want_ws = [getattr(mod, 'deco%d' % i).__wrapped__ if hasattr(getattr(mod, 'deco%d' % i), '__wrapped__') else None for i in range(depth)]
+        if len(ws) != depth:
+            problems.append('wrappers-length: wrappers() lists %d functions for a stack of %d\n%s' % (len(ws), depth, src))
+        else:
+            for i, w in enumerate(ws):
+                nm = getattr(w, '__name__', None)
+                if nm != 'deco%d' % i:
+                    problems.append('wrappers-order: wrappers() position %d is %r\n%s' % (i, w, src))
+                    break
+        if placement == 'method':
+            try:
+                with warnings.catch_warnings():
+                    warnings.simplefilter('ignore')
+                    usig = sigtools.signature(mod.C.f)
+            except Exception as e:  # noqa
+                problems.append('unbound-stack-retrieval-raises: sigtools.signature(C.f) raised %s for a stack of %d wrappers.decorator '
+                                'wrappers on a method accessed through the class\n%s' % (type(e).__name__, depth, src))
+                usig = None
+            if usig is not None:
+                up = [p.name for p in usig.parameters.values()]
+                bp = [p.name for p in sig.parameters.values()]
+                if up[1:] != bp or up[:1] != ['self']:
+                    problems.append('bind-removes-first: unbound %s, bound %s\n%s' % (usig, sig, src))
+    finally:
+        progs.unload(fname)
+    return ('ok', tuple(problems[:2]), 'calls:%d' % ran)
+
+
+def rt_combination(req):
+    """C13: wrappers.Combination: result = each function applied in turn to the first argument; its signature is
+    sound when the combined functions use parameter names in consistent roles"""
+    from . import progs, oracles as O
+    _, flist = req
+    lines = ['from sigtools import wrappers']
+    for i, ps in enumerate(flist):
+        full = [core.P('arg', 'pk')] + list(ps)
+        lines += core.def_source(full, name='c%d' % i, body='return (%d, arg)' % i).rstrip('\n').split('\n')
+    lines += ['comb = wrappers.Combination(%s)' % ', '.join('c%d' % i for i in range(len(flist)))]
+    src = '\n'.join(lines) + '\n'
+    mod, fname = progs.load_module(src)
+    problems = []
+    try:
+        with warnings.catch_warnings():
+            warnings.simplefilter('ignore')
+            try:
+                sig = sigtools.signature(mod.comb)
+            except ValueError:
+                return ('ok', (), 'incompatible')
+        R = [(p.name, core.KIND_NAME[p.kind], None if p.default is p.empty else 1) for p in sig.parameters.values()]
+        ins = [[('arg', 'pk', None)] + [(p[0], p[1], p[2]) for p in ps] for ps in flist]
+        rc = O.role_cons(ins)
+        ran = 0
+        for n, K in O.shapes_for(ins + [R], foreign=('zz',), maxk=3):
+            if 'arg' in K:
+                continue
+            a = tuple(100 + i for i in range(n))
+            k = {x: 200 for x in K}
+
+            def hand():
+                arg = a[0]
+                for i in range(len(flist)):
+                    arg = getattr(mod, 'c%d' % i)(arg, *a[1:], **k)
+                return arg
+            try:
+                want = ('ok', hand()) if n >= 1 else ('typeerror',)
+            except TypeError:
+                want = ('typeerror',)
+            try:
+                got = ('ok', mod.comb(*a, **k))
+            except TypeError:
+                got = ('typeerror',)
+            ran += 1
+            if got != want:
+                problems.append('combination-not-transparent: %s %s gives %s, hand-written %s\n%s' % (a, k, got, want, src))
+                break
+            if rc and O.non_colliding(R, ins, K) and O.acc(R, n, K) and got == ('typeerror',):
+                problems.append('combination-signature-unsound: %s accepts (%d,%s) but the call raises TypeError\n%s' % (sig, n, K, src))
+                break
+    finally:
+        progs.unload(fname)
+    return ('ok', tuple(problems[:2]), 'calls:%d' % ran)
+
+
+RT['wrap'] = rt_wrap
+RT['combination'] = rt_combination
+
+
+# ----------------------------------------------------------------------------- C11: postponed annotations
+class _AObj:
+    def __init__(self, tag):
+        self.tag = tag
+
+    def __repr__(self):
+        return 'AObj%r' % (self.tag,)
+
+
+def _annot_func(ps, anns, ret, future, glob, name='fn'):
+    """def name(<ps with annotations spelled T<k>>) -> T<ret>, compiled with/without the future flag in `glob`"""
+    import __future__
+    parts = []
+    prev = None
+    for p, a in zip(ps, anns):
+        n, k, d = p[0], p[1], p[2]
+        if prev == 'po' and k != 'po':
+            parts.append('/')
+        if k == 'ko' and prev not in ('vp', 'ko'):
+            parts.append('*')
+        t = {'vp': '*', 'vk': '**'}.get(k, '') + n
+        if a is not None:
+            t += ': T%d' % a
+        if d is not None:
+            t += '=%d' % d
+        parts.append(t)
+        prev = k
+    if prev == 'po':
+        parts.append('/')
+    src = 'def %s(%s)%s:\n    return None\n' % (name, ', '.join(parts), (' -> T%d' % ret) if ret is not None else '')
+    flags = __future__.annotations.compiler_flag if future else 0
+    code = compile(src, '<annot>', 'exec', flags, dont_inherit=True)
+    exec(code, glob)
+    return glob[name]
+
+
+def rt_annot(req):
+    import random
+    from . import streams as ST
+    _, seed = req
+    rng = random.Random(seed)
+    problems = []
+    shared = rng.random() < 0.4
+    same_spelling_diff_obj = (not shared) and rng.random() < 0.5
+    op = rng.choice(['merge', 'merge', 'embed', 'forwards', 'mask', 'kwoargs', 'partial', 'annotate'])
+    k = 2 if op in ('merge', 'embed', 'forwards') else 1
+    if op == 'merge':
+        descs = ST._align(rng, list('abc'), 2, 3)
+        pss = [d['params'] for d in descs]
+    elif op in ('embed', 'forwards'):
+        pss = [core.rand_sig(rng, list('ab'), 2, p_star=1.0), core.rand_sig(rng, list('xy'), 2)]
+    else:
+        pss = [core.rand_sig(rng, list('abc'), 3)]
+    globs, table = [], []
+    base = {}
+    for i in range(k):
+        g = base if shared else {}
+        for t in (1, 2, 3):
+            if 'T%d' % t not in g:
+                # distinct objects per function unless globals are shared
+                g['T%d' % t] = _AObj((0 if shared else i, t))
+        globs.append(g)
+    # spellings: the same names in every function (only then can equal spellings denote different objects, D10),
+    # or disjoint names per function (then the object tells which function's globals resolved it)
+    same_spelling = shared or rng.random() < 0.5
+    off = [0 if same_spelling else 3 * i for i in range(k)]
+    for i in range(k):
+        for t in (1, 2, 3):
+            globs[i].setdefault('T%d' % (t + off[i]), _AObj((0 if shared else i, t + off[i])))
+    anns = [[rng.choice([None, 1 + off[i], 2 + off[i]]) for _ in ps] for i, ps in enumerate(pss)]
+    rets = [rng.choice([None, 3 + off[i]]) for i, _ in enumerate(pss)]
+    marker = _AObj('verbatim')
+
+    def build(future):
+        fs = []
+        for i in range(k):
+            g = dict(globs[i])
+            fs.append(_annot_func(pss[i], anns[i], rets[i], future, g, name='fn%d' % i))
+        return fs
+
+    def compute(fs):
+        with warnings.catch_warnings():
+            warnings.simplefilter('ignore')
+            sigs = [sigtools.signature(f) for f in fs]
+            if op == 'merge':
+                return signatures.merge(*sigs)
+            if op == 'embed':
+                return signatures.embed(*sigs)
+            if op == 'forwards':
+                return signatures.forwards(sigs[0], sigs[1])
+            if op == 'mask':
+                return signatures.mask(sigs[0], 1 if any(p[1] in ('po', 'pk') for p in pss[0]) else 0)
+            if op == 'kwoargs':
+                pk = [p[0] for p in pss[0] if p[1] == 'pk']
+                if not pk:
+                    return sigs[0]
+                return sigtools.signature(modifiers.kwoargs(pk[-1])(fs[0]))
+            if op == 'partial':
+                pk = [p[0] for p in pss[0] if p[1] in ('pk', 'ko')]
+                return sigtools.signature(functools.partial(fs[0], **({pk[-1]: 5} if pk else {})))
+            if op == 'annotate':
+                nm = [p[0] for p in pss[0]]
+                if not nm:
+                    return sigs[0]
+                r = sigtools.signature(modifiers.annotate(**{nm[0]: marker})(fs[0]))
+                if r.parameters[nm[0]].annotation is not marker or r.parameters[nm[0]].upgraded_annotation.source_value() is not marker:
+                    problems.append('annotate-not-verbatim: %s' % r)
+                return r
+    try:
+        post = compute(build(True))
+        eager = compute(build(False))
+    except ValueError:
+        return ('ok', (), 'raises')
+    # (a) every annotation resolves to an object of the defining function's globals
+    allowed = {}
+    for i in range(k):
+        for p, a in zip(pss[i], anns[i]):
+            if a is not None:
+                allowed.setdefault(p[0], []).append(globs[i]['T%d' % a])
+    pe = post.evaluated()
+    for name, p in post.parameters.items():
+        ua = p.upgraded_annotation
+        try:
+            v = ua.source_value()
+        except Exception as e:  # noqa
+            problems.append('source_value-raises: %s: %s %s' % (name, type(e).__name__, e))
+            continue
+        if v is inspect.Parameter.empty:
+            continue
+        if op == 'annotate' and isinstance(v, _AObj) and v.tag == 'verbatim':
+            continue
+        # positional parameters of a merge may carry the annotation of the parameter merged into them
+        cand = allowed.get(name) or [o for lst in allowed.values() for o in lst]
+        if not any(v is o for o in cand):
+            problems.append('wrong-context: annotation of %s resolves to %r, not an object of its defining globals (%s) in %s' % (
+                name, v, cand, post))
+        if pe.parameters[name].annotation is not v:
+            problems.append('evaluated-differs: evaluated() gives %r for %s, source_value() %r' % (pe.parameters[name].annotation, name, v))
+    # (b) twins
+    ee = eager.evaluated()
+    a = [(n, q.kind, q.annotation) for n, q in pe.parameters.items()]
+    b = [(n, q.kind, q.annotation) for n, q in ee.parameters.items()]
+    if len(a) != len(b) or any(x[0] != y[0] or x[1] != y[1] or (x[2] is not y[2]) for x, y in zip(a, b)) \
+            or (pe.return_annotation is not ee.return_annotation):
+        if op in ('merge', 'embed', 'forwards') and not shared:
+            problems.append('postponed-spelling-conciliation: merging functions from different globals: postponed gives %s, eager twins give %s '
+                            '(annotations are conciliated by comparing their spellings)' % (pe, ee))
+        else:
+            problems.append('twin-differs: %s on postponed functions evaluates to %s, on eager twins to %s' % (op, pe, ee))
+    return ('ok', tuple(problems[:2]), op)
+
+
+RT['annot'] = rt_annot
